@@ -86,7 +86,7 @@ def generate(seed, tier):
         sg = seg if t == 0 else max(maxlen // 60, weighted(w, [(w.randint(30, 300), 3), (w.randint(301, 5000), 2)]))
         fsz = weighted(w, [(longest, 3), (longest + w.randint(1, 200), 3), (max(longest, sg + w.randint(1, 500)), 2)])
         modes.append({'mp': True, 'name': f'T{t}', 'api': 'tiling', 'width': s.randint(1, 8), 'schedule': {'policy': 'seeded'}, 'seed': seed + f'T{t}', 'isolation': s.choice(['inproc', 'fork']),
-                      'tiling': {'bp_per_segment': sg, 'bp_per_job': sg * w.randint(1, 20), 'fragment_size': fsz}})
+                      'tiling': {'bp_per_segment': sg, 'bp_per_job': sg * w.randint(1, 20), 'fragment_size': fsz, 'job_bed': s.choice([None, None, 'plain', 'gz'])}})
     return {'params': params, 'genome': genome, 'workload': frags, 'modes': modes}
 
 
